@@ -447,6 +447,21 @@ func c02Relay(p *core.Prog, r *core.Report) {
 		ok = core.CallArgs(add.(ssa.CallInstruction))[0] == ssa.Value(f.Params[2])
 	}
 	r.Check(ok, "C02-R6", fname(f), "Add(chunk) then checksumRef.Update(Sum()) with the call's checksum", p.Pos(f.Pos()), "continuation frame re-stamped after accumulating its chunk", "continuation frames of a modified call are not (correctly) re-stamped")
+	if ok {
+		// on every path: no return without the re-stamp (an empty chunk
+		// still needs the running checksum, which differs from the
+		// sender's once arg2 was modified), and no re-stamp without the Add.
+		isRet := func(i ssa.Instruction) bool { _, r := i.(*ssa.Return); return r }
+		skip := core.ReachAvoiding(f, nil, isRet, func(i ssa.Instruction) bool { return i == upd }, nil)
+		noAdd := core.ReachAvoiding(f, nil, func(i ssa.Instruction) bool { return i == upd }, func(i ssa.Instruction) bool { return i == add }, nil)
+		how := ""
+		if skip.Found {
+			how = "a path returns without re-stamping the frame: " + p.TrailString(skip) + " exit " + p.Pos(skip.Exit.Pos())
+		} else if noAdd.Found {
+			how = "the frame can be re-stamped without accumulating its chunk: " + p.TrailString(noAdd)
+		}
+		r.Check(how == "", "C02-R6", fname(f), "every path accumulates the chunk and re-stamps the frame", p.Pos(f.Pos()), "no return avoids Update(Sum()); no Update avoids Add", how)
+	}
 	// called with item.mutatedChecksum for callReqContinue frames only when non-nil
 	if g := mustFunc(p, r, "", "Relayer", "handleNonCallReq"); g != nil {
 		okSite := false
